@@ -1,4 +1,5 @@
 import GA.Drv.Iterq
+import GA.Drv.LayoutE
 open GA.Drv
 
 def answerLine (line : String) : String :=
@@ -7,6 +8,7 @@ def answerLine (line : String) : String :=
     let kv := parseKV rest
     let body := match engine with
       | "iterq" => Iterq.answer kv
+      | "layout" => LayoutE.answer kv
       | _ => "bad-engine"
     s!"{seq} {body}"
   | _ => "bad-line"
